@@ -49,6 +49,9 @@ def posterior_enum(fp, xs):
     return joint
 
 
+EPSC = 1e-14                  # 45 units in the last place per unit of log-magnitude: generous for `norm.logpdf`, `logsumexp` and the additions between them
+ORIGIN = [0]
+STEP_TOL: list = []           # filled by posterior_forward: per step, the tolerances of the forward error analysis below (per entry, and for the row sum)
 LOG_MAGNITUDE: list = []      # filled by posterior_forward: per step, the accumulated magnitude of the exact log-joints (the ORACLE's, not an attribute of the detector)
 
 
@@ -65,10 +68,14 @@ def posterior_forward(fp, xs):
     M = [Decimal(1)]
     rows = []
     LOG_MAGNITUDE.clear()
+    STEP_TOL.clear()
     acc = 0.0
     lh = max(abs(math.log(fp["hazard"])), abs(math.log1p(-fp["hazard"]))) if 0 < fp["hazard"] < 1 else 0.0
+    budget, origin = [0.0], [0]
+    ORIGIN[0] = 0
     for t, x in enumerate(xs, 1):
         pis = []
+        lpi = []
         big = 0.0
         for r in range(t):
             vals = xs[t - 1 - r: t - 1]
@@ -76,13 +83,54 @@ def posterior_forward(fp, xs):
             mu = (D(fp["prior_mean"]) / D(fp["prior_var"]) + sum((D(v) for v in vals), Decimal(0)) / D(fp["data_var"])) / prec
             var = 1 / prec + D(fp["data_var"])
             pis.append((-(D(x) - mu) ** 2 / (2 * var)).exp() / (two_pi * var).sqrt())
-            big = max(big, float((D(x) - mu) ** 2 / (2 * var)) + abs(0.5 * math.log(float(two_pi * var))))
+            lpi.append(float((D(x) - mu) ** 2 / (2 * var)) + abs(0.5 * math.log(float(two_pi * var))))
+            big = max(big, lpi[-1])
         # magnitude of the log-joints any log-space implementation handles up to this step: the largest |log predictive density| of every step so far plus the
         # hazard terms, accumulated (an unnormalised message carries the sum, a normalised one only the last term: the bound covers both)
         acc += big + lh
         LOG_MAGNITUDE.append(acc)
         new = [sum((M[r] * pis[r] * h for r in range(t)), Decimal(0))] + [M[r] * pis[r] * (1 - h) for r in range(t)]
         tot = sum(new, Decimal(0))
+        # --- what a float64 LOG-SPACE implementation that passes on the NORMALISED posterior can achieve (forward error analysis of that algorithm):
+        # every lineage (run-length hypothesis) accumulates the magnitudes of the log quantities added along it; an absolute error EPSC * magnitude of a log-joint
+        # is a relative error of the probability.  The changepoint entry inherits the contribution-weighted budget of its parents.  The normalisation subtracts a
+        # log-evidence of magnitude |log p(x_t | past)|: a factor common to the row.
+        # ILL-CONDITIONED steps: an observation so far from a hypothesis that the spacing of doubles at the magnitude of its log-density (EPSC * magnitude > 1e-3)
+        # exceeds what separates the hypotheses.  The errors made there are arbitrary but each is ONE factor on ONE lineage: it cancels in every later normalisation
+        # as soon as all hypotheses that still carry mass descend from a single lineage of that step.  Lineages therefore carry an `origin`: a new one for every
+        # lineage touched by an ill-conditioned step (budget restarted), inherited otherwise; while hypotheses of more than one origin carry mass (> 1e-12) the step
+        # belongs to the domain of the recorded finding KF-C08-1, afterwards the ordinary analysis applies again - an implementation whose rows stay wrong after the
+        # posterior has forgotten the outlier (an unnormalised message does) is reported.
+        if tot > 0:
+            contrib = [M[r] * pis[r] for r in range(t)]
+            csum = sum(contrib, Decimal(0))
+            share = [float(contrib[r] / csum) if csum > 0 else 0.0 for r in range(t)]
+            prev_lp = [min(float(-M[r].ln()) if M[r] > 0 else 1e4, 1e4) for r in range(t)]
+            ill = [EPSC * lpi[r] > 1e-3 for r in range(t)]
+            grown_b, grown_o = [], []
+            for r in range(t):
+                if ill[r]:
+                    ORIGIN[0] += 1
+                    grown_b.append(0.0); grown_o.append(ORIGIN[0])
+                else:
+                    grown_b.append(budget[r] + lpi[r] + prev_lp[r] + lh); grown_o.append(origin[r])
+            parents = [r for r in range(t) if share[r] > 1e-12]
+            if parents and not any(ill[r] for r in parents) and len({origin[r] for r in parents}) == 1:
+                cp_b, cp_o = sum(share[r] * grown_b[r] for r in parents), origin[parents[0]]
+            else:
+                ORIGIN[0] += 1
+                cp_b, cp_o = 0.0, ORIGIN[0]
+            budget, origin = [cp_b] + grown_b, [cp_o] + grown_o
+            pf = [float(v / tot) for v in new]
+            lse = abs(float(tot.ln()))
+            w = [pf[r] * math.expm1(min(EPSC * budget[r], 700.0)) if pf[r] > 1e-300 else 0.0 for r in range(t + 1)]
+            S = sum(w)
+            common = math.expm1(min(EPSC * (lse + lh), 700.0))
+            alive = {origin[r] for r in range(t + 1) if pf[r] > 1e-12}
+            STEP_TOL.append({"entry": [min(1.0, 1e-9 + w[r] + pf[r] * (S + common)) for r in range(t + 1)], "sum": 1e-9 + 2 * S + common,
+                             "ill_conditioned": len(alive) > 1})
+        else:
+            STEP_TOL.append(None)
         M = [v / tot for v in new] if tot > 0 else new
         rows.append([float(v) for v in M] if tot > 0 else None)
     return rows
@@ -124,8 +172,9 @@ def check(out: Outcome, p: dict, xs: list, runners: list, enum: bool = False, ca
         r.cast = cast
     d = r.det
     rows = posterior_forward(fp, xs)
-    mags = list(LOG_MAGNITUDE)
+    steps = list(STEP_TOL)
     fired = False
+    ill_steps = 0
     tols = {0: 1e-9}
     for t, x in enumerate(xs, 1):
         r.update(x)
@@ -137,19 +186,30 @@ def check(out: Outcome, p: dict, xs: list, runners: list, enum: bool = False, ca
         if want is None:
             break
         got = [float(v) for v in np.exp(d.log_r[t, : t + 1])]
-        # log-joints of magnitude L carry an absolute rounding error of about L * 2^-52, which becomes a relative error of the probabilities
-        # (the magnitude is taken from the exact computation, not from an internal attribute of the detector: a normalised message must be judged as an unnormalised one is)
-        tol = 1e-9 + 1e-14 * mags[t - 1]
-        # the posterior means are stored at the magnitude of the data: an absolute rounding error of about |x| * 2^-52 per update, which moves the densities by
-        # (x - mu) * error / variance - at level 3e9 a few 1e-9 in the probabilities
-        tol += 2e-15 * max(abs(v) for v in xs[:t]) * max(1.0, 1.0 / min(fp["data_var"], fp["prior_var"]))
+        # tolerances: the forward error analysis of `posterior_forward` (what float64 log-space arithmetic on a NORMALISED message can achieve at this step - derived
+        # from the exact computation, never from an attribute of the detector), plus: the posterior means are stored at the magnitude of the data - an absolute rounding
+        # error of about |x| * 2^-52 per update, which moves the densities by (x - mu) * error / variance (at level 3e9 a few 1e-9 in the probabilities)
+        st = steps[t - 1]
+        data_term = 2e-15 * max(abs(v) for v in xs[:t]) * max(1.0, 1.0 / min(fp["data_var"], fp["prior_var"]))
+        tol = st["sum"] + data_term
         tols[t] = tol
-        if any(math.isnan(v) for v in got) or abs(sum(got) - 1) > tol:
-            out.violation(f"BOCD: run-length row at step {t} sums to {sum(got)!r}", rep)
+        bad = None
+        if any(math.isnan(v) for v in got) or abs(sum(got) - 1) > min(tol, 0.5):
+            bad = f"BOCD: run-length row at step {t} sums to {sum(got)!r}"
+        elif max(abs(a - b) - e for a, b, e in zip(got, want, st["entry"])) > data_term:
+            bad = f"BOCD: run-length distribution at step {t} differs from the exact posterior (max abs diff {max(abs(a - b) for a, b in zip(got, want)):.3e})"
+        if bad:
+            if st["ill_conditioned"] and "KF-C08-1" in out.findings:
+                # hypotheses of more than one origin of an ill-conditioned step still carry mass: the domain of the recorded finding; the run goes on, the rows must
+                # be right again once the posterior has forgotten the observation
+                out.findings["KF-C08-1"].hits += 1
+                ill_steps += 1
+                continue
+            out.violation(bad, rep)
             break
-        if max(abs(a - b) for a, b in zip(got, want)) > tol:
-            out.violation(f"BOCD: run-length distribution at step {t} differs from the exact posterior (max abs diff {max(abs(a - b) for a, b in zip(got, want)):.3e})", rep)
-            break
+        if st["ill_conditioned"]:
+            ill_steps += 1
+            continue
         if enum and t <= 9:
             cfgs = posterior_configs(fp, xs[:t])
             if cfgs is not None and max(abs(a - b) for a, b in zip(got, cfgs)) > tol:
@@ -188,6 +248,8 @@ def check(out: Outcome, p: dict, xs: list, runners: list, enum: bool = False, ca
             out.violation(f"BOCD: log_r has shape {tab.shape} after {T} updates", rep)
         else:
             for t in range(T + 1):
+                if t > 0 and (steps[t - 1] is None or steps[t - 1]["ill_conditioned"]):
+                    continue
                 want = [1.0] if t == 0 else rows[t - 1]
                 tl = max(1e-6, 10 * tols.get(t, 1e-9))       # same scaling with the magnitude of the log-joints as the per-step comparison
                 if np.any(tab[t, t + 1:] != 0.0) or abs(float(tab[t, : t + 1].sum()) - 1.0) > tl or max(abs(a - b) for a, b in zip(tab[t, : t + 1], want)) > tl:
@@ -302,6 +364,17 @@ def run(out: Outcome) -> None:
         p["min_num_instances"] = rng.choice([1, 2, 3])
         check(out, p, [rng.gauss(rng.choice([0, 2]), 1) for _ in range(9)], runners, enum=True)
     check(out, {}, [rng.gauss(0, 1) for _ in range(45)] + [rng.gauss(4, 1) for _ in range(25)], runners)     # BOCD() with every default (configuration AND model)
+    if "KF-C08-1" in out.findings:      # witness of the recorded finding: one observation of 1e9 in unit-variance data; the rows AFTER it must be right again
+        import json
+        from common import VERIF
+        w = json.loads((VERIF / "corpus" / "findings" / "KF-C08-1.json").read_text())
+        check(out, w["params"], w["stream"], [])
+    # the same kind of stream, generated: an outlier of 1e7 .. 1e12 standard deviations, then ordinary data - the posterior forgets it, the rows are exact again
+    for _ in range(3 if thorough else 2):
+        pre, post = rng.randint(5, 40), rng.randint(15, 50)
+        xs = [rng.gauss(0, 1) for _ in range(pre)] + [rng.choice([-1, 1]) * rng.choice([1e7, 1e8, 1e9, 1e12])] + [rng.gauss(rng.choice([0, 3]), 1) for _ in range(post)]
+        check(out, {"hazard": rng.choice([0.01, 0.1]), "min_num_instances": rng.choice([5, 30])}, xs, [])
+        out.count("outlier_recovery_streams")
     # cancellation probes: a well-specified model far from the origin (level 1e6 ... 1e9, noise 1): the densities depend on x - mu only, the posterior is
     # that of the centred data; and integer-valued observations of that size handed over as np.int64 (squares beyond 2^63 must not wrap)
     for level in ((1e6, 1e8, 3e9) if thorough else (rng.choice([1e6, 1e8]), 3e9)):
